@@ -4,7 +4,7 @@
    specification. *)
 From Coq Require Import String.
 From OCI Require Export Base.Outcome Model.Listing Model.ListingSpec.
-From OCI Require Import Proofs.Seq Proofs.Listing.
+From OCI Require Import Proofs.Seq Proofs.Listing Proofs.ListingStack.
 
 (* one yield call as the harness saw it *)
 Inductive entry :=
@@ -112,6 +112,160 @@ Definition nontrivial (c : case) : bool :=
   | FNo => (2 <=? length (filter (after (c_query c) (c_start c)) (names (c_stack c) (c_query c))))%nat
   | _ => true
   end.
+
+(* ---------------- corr_sound ---------------- *)
+
+Lemma entry_eqb_eq a b : entry_eqb a b = true -> a = b.
+Proof.
+  destruct a as [u p|c p|w], b as [v q|d q|w']; cbn; try discriminate; intros H.
+  - apply andb_true_iff in H as [H1 H2]. apply beqb_eq in H1. apply Bool.eqb_prop in H2. now subst.
+  - apply andb_true_iff in H as [H1 H2]. apply ecode_eqb_eq in H1. apply Bool.eqb_prop in H2. now subst.
+Qed.
+
+Lemma log_eqb_eq a b : log_eqb a b = true -> a = b.
+Proof.
+  unfold log_eqb. revert b; induction a as [|x a IH]; intros [|y b]; cbn; try discriminate; auto.
+  intros H. apply andb_true_iff in H as [H1 H2]. apply entry_eqb_eq in H1. apply IH in H2. now subst.
+Qed.
+
+(* the two shapes a trace of the canonical iterator can have: everything was handed over
+   (then the error, if any), or the consumer declined some item x *)
+Definition took (x : bytes) : call err bytes := (inl x, true).
+
+Lemma trace_shape {S} (xs : list bytes) (oe : option err) (y : consumer err bytes S) s :
+  (exists tl, trace_of xs oe y s = map took xs ++ tl /\
+              match oe with None => tl = [] | Some e => exists b, tl = [(inr e, b)] end)
+  \/ (exists pre x post, xs = pre ++ x :: post /\ trace_of xs oe y s = map took pre ++ [(inl x, false)]).
+Proof.
+  revert s; induction xs as [|x xs IH]; intros s.
+  - left. cbn. destruct oe as [e|]; eauto.
+  - cbn [trace_of]. destruct (y (inl x) s) as [s1 ok]. destruct ok.
+    + destruct (IH s1) as [(tl & Ht & Htl) | (pre & z & post & Hx & Ht)].
+      * left. exists tl. rewrite Ht. auto.
+      * right. exists (x :: pre), z, post. rewrite Ht, Hx. auto.
+    + right. exists [], x, xs. auto.
+Qed.
+
+Lemma log_answers_trace xs oe k c :
+  log_answers k (N.succ c) (map entry_of (trace_of xs oe (stop_at k) c)) = true.
+Proof.
+  revert c; induction xs as [|x xs IH]; intros c.
+  - cbn. destruct oe as [e|]; cbn; [|reflexivity]. rewrite andb_true_r. apply Bool.eqb_true_iff. reflexivity.
+  - cbn [trace_of stop_at]. destruct (negb (N.succ c =? k)%N) eqn:E; cbn; rewrite E; cbn.
+    + apply IH.
+    + reflexivity.
+Qed.
+
+Definition tookE (x : bytes) : entry := EItem x true.
+
+Lemma map_entry_took l : map entry_of (map took l) = map tookE l.
+Proof. rewrite map_map. reflexivity. Qed.
+
+Lemma log_protocol_took pre tl :
+  match tl with
+  | [] => True
+  | [EBad _] => False
+  | [_] => True
+  | _ => False
+  end -> log_protocol (map tookE pre ++ tl) = true.
+Proof.
+  intros Htl. induction pre as [|a pre IH].
+  - cbn. destruct tl as [|e [|? ?]]; try tauto; destruct e; tauto.
+  - cbn [map app log_protocol]. destruct (map tookE pre ++ tl) eqn:E; [reflexivity | exact IH].
+Qed.
+
+Lemma log_items_took pre tl : log_items (map tookE pre ++ tl) = pre ++ log_items tl.
+Proof. induction pre as [|a pre IH]; cbn; [reflexivity|]. unfold log_items in IH. now rewrite IH. Qed.
+
+Lemma last_entry_app l e : last_entry (l ++ [e]) = Some e.
+Proof. apply last_opt_app. Qed.
+
+Lemma last_entry_took pre :
+  last_entry (map tookE pre) = match last_opt pre with Some x => Some (EItem x true) | None => None end.
+Proof.
+  unfold last_entry. induction pre as [|a pre IH]; [reflexivity|].
+  cbn [map last_opt]. destruct pre as [|b pre]; [reflexivity|]. exact IH.
+Qed.
+
+Lemma forallb_mem_incl l want : (forall x, In x l -> In x want) -> forallb (fun x => mem_bytes x want) l = true.
+Proof. intros H. apply forallb_forall. intros x Hx. apply mem_bytes_In. auto. Qed.
+
+Lemma blt_not_bleb a b : blt a b -> bleb b a = false.
+Proof.
+  intros H. destruct (bleb b a) eqn:E; [|reflexivity]. apply bleb_le in E.
+  exfalso. pose proof (ble_blt_trans _ _ _ E H) as Hbb. apply bltb_lt in Hbb. now rewrite bltb_irrefl in Hbb.
+Qed.
+
+Lemma ssorted_prefix pre x post : ssorted (pre ++ x :: post) -> ssorted (pre ++ [x]).
+Proof.
+  intros H. replace (pre ++ x :: post) with ((pre ++ [x]) ++ post) in H by now rewrite <- app_assoc.
+  now apply ssorted_app_inv in H.
+Qed.
+
+(* the log of a listing that satisfies [lgood] passes the specification *)
+Lemma run_ok_lgood k q start it n :
+  lgood (names k q) (fails k q) (after q start) it ->
+  run_ok k q start (n, map entry_of (calls it (stop_at n) 0)) = true.
+Proof.
+  intros (xs & oe & Hrep & Hs & Hin & Hfc).
+  rewrite (calls_represents _ _ _ (stop_at n) 0%N Hrep).
+  unfold run_ok. set (want := filter (after q start) (names k q)).
+  assert (Hwant : forall x, In x xs -> In x want).
+  { intros x Hx. apply filter_In. now apply Hin. }
+  pose proof (log_answers_trace xs oe n 0) as Hans. change (N.succ 0) with 1%N in Hans. rewrite Hans.
+  rewrite andb_true_r.
+  destruct (trace_shape xs oe (stop_at n) 0%N) as [(tl & Ht & Htl) | (pre & x & post & Hx & Ht)];
+    rewrite Ht, map_app, map_entry_took.
+  - (* everything was handed over *)
+    assert (Hitems : log_items (map tookE xs ++ map entry_of tl) = xs).
+    { rewrite log_items_took. destruct oe as [e|]; [destruct Htl as [b ->] | subst tl]; cbn; apply app_nil_r. }
+    rewrite Hitems.
+    assert (log_protocol (map tookE xs ++ map entry_of tl) = true) as ->.
+    { apply log_protocol_took. destruct oe as [e|]; [destruct Htl as [b ->] | subst tl]; cbn; exact I. }
+    assert (ascending xs = true) as -> by now apply ascending_spec.
+    rewrite (forallb_mem_incl xs want Hwant). cbn [andb].
+    destruct (fails k q).
+    + destruct Hfc as [-> Hc]. subst tl. cbn [map]. rewrite app_nil_r, last_entry_took.
+      assert (Hall : forallb (fun x => mem_bytes x xs) want = true).
+      { apply forallb_mem_incl. intros x Hx. apply filter_In in Hx as [H1 H2]. auto. }
+      destruct (last_opt xs); exact Hall.
+    + destruct Hfc as (Hnm & e & -> & He). destruct Htl as [b ->].
+      assert (xs = []) as ->.
+      { destruct xs as [|x xs]; auto. destruct (Hin x (or_introl eq_refl)) as [H _]. rewrite Hnm in H. destruct H. }
+      cbn. cbn in He. now rewrite He.
+    + destruct Hfc as (e & -> & He). destruct Htl as [b ->]. cbn [map]. now rewrite last_entry_app.
+  - (* declined at x *)
+    assert (Hitems : log_items (map tookE pre ++ map entry_of [(inl x, false)]) = pre ++ [x]).
+    { now rewrite log_items_took. }
+    rewrite Hitems.
+    assert (log_protocol (map tookE pre ++ map entry_of [(inl x, false)]) = true) as ->.
+    { apply log_protocol_took. exact I. }
+    assert (Hs' : ssorted (pre ++ [x])) by (apply (ssorted_prefix pre x post); now rewrite <- Hx).
+    assert (ascending (pre ++ [x]) = true) as -> by now apply ascending_spec.
+    assert (Hpre : forall w, In w (pre ++ [x]) -> In w xs).
+    { intros w Hw. rewrite Hx. apply in_app_or in Hw as [Hw|[<-|[]]]; apply in_or_app; [now left | right; now left]. }
+    rewrite (forallb_mem_incl (pre ++ [x]) want) by auto. cbn [andb].
+    cbn [map]. rewrite last_entry_app. change (entry_of (inl x, false)) with (EItem x false).
+    destruct (fails k q); auto.
+    destruct Hfc as [-> Hc]. apply forallb_forall. intros w Hw. apply filter_In in Hw as [H1 H2].
+    specialize (Hc w H1 H2). rewrite Hx in Hc. apply in_app_or in Hc as [Hc|[<-|Hc]].
+    + apply orb_true_iff. right. apply mem_bytes_In. apply in_or_app. now left.
+    + apply orb_true_iff. right. apply mem_bytes_In. apply in_or_app. right. now left.
+    + apply orb_true_iff. left. apply negb_true_iff. apply blt_not_bleb.
+      rewrite Hx in Hs. apply ssorted_app_inv in Hs as (_ & Hs & _).
+      apply ssorted_cons_inv in Hs as [_ Hf]. rewrite Forall_forall in Hf. auto.
+Qed.
+
+(* model_agrees c -> obs_ok c: what the model predicts for a well-formed stack satisfies the
+   specification (by the stack theorem), and the observation equals the prediction *)
+Lemma corr_sound c : model_agrees c = true -> obs_ok c = true.
+Proof.
+  unfold model_agrees, obs_ok. intros H. apply andb_true_iff in H as [Hw Hruns].
+  rewrite Hw. cbn [andb]. apply forallb_forall. intros [n log] Hrun.
+  rewrite forallb_forall in Hruns. specialize (Hruns _ Hrun). cbn [fst snd] in Hruns.
+  apply log_eqb_eq in Hruns. subst log.
+  unfold model_log. apply run_ok_lgood. now apply stack_listing.
+Qed.
 
 Definition mismatches (cs : list case) : list (N * bool) :=
   bad_from 0 (fun c => if model_agrees c then None else Some (obs_ok c)) cs.
